@@ -7,8 +7,16 @@ def generate(api):
     tree, rel = api.parse("args/default_args_parser.py")
     fn = api.P.find_function(tree, "DefaultArgsParser", "parse", rel)
     reset = {"_arguments": False, "_options": False}
-    cls = [n for n in tree.body if isinstance(n, ast.ClassDef) and n.name == "DefaultArgsParser"][0]
-    methods = {n.name: n for n in cls.body if isinstance(n, ast.FunctionDef)}
+    cls = api.P.find_class(tree, "DefaultArgsParser", rel)
+    methods = {}
+    for n in cls.body:
+        if isinstance(n, ast.FunctionDef):
+            if n.name in methods:
+                raise api.P.Untranslatable("%s:%d: DefaultArgsParser.%s is defined twice" % (rel, n.lineno, n.name))
+            methods[n.name] = n
+    a = fn.args
+    if not a.args or a.args[0].arg != "self" or any(x.arg == "self" for x in a.args[1:] + a.kwonlyargs):
+        raise api.P.Untranslatable("%s:%d: parse() is not a method with a `self`" % (rel, fn.lineno))
 
     def is_reset(st):
         return (isinstance(st, ast.Assign) and len(st.targets) == 1 and isinstance(st.targets[0], ast.Attribute)
@@ -16,18 +24,34 @@ def generate(api):
                 and st.targets[0].attr in reset and isinstance(st.value, ast.Call) and not st.value.args
                 and not st.value.keywords and getattr(st.value.func, "id", None) in ("OrderedDict", "dict"))
 
+    def is_clear(st):
+        """`self._x.clear()` empties the same dictionary (the values were copied into the Args object)"""
+        return (isinstance(st, ast.Expr) and isinstance(st.value, ast.Call) and not st.value.args and not st.value.keywords
+                and isinstance(st.value.func, ast.Attribute) and st.value.func.attr == "clear"
+                and isinstance(st.value.func.value, ast.Attribute) and st.value.func.value.attr in reset
+                and isinstance(st.value.func.value.value, ast.Name) and st.value.func.value.value.id == "self")
+
+    def reset_attr(st):
+        if is_reset(st):
+            return st.targets[0].attr
+        if is_clear(st):
+            return st.value.func.value.attr
+        return None
+
     def mentions_self(st):
         return any(isinstance(n, ast.Name) and n.id == "self" for n in ast.walk(st))
 
     def docstring(st):
         return isinstance(st, ast.Expr) and isinstance(st.value, ast.Constant)
 
+    leading = []
     for st in fn.body:
         # only the statements before the first use of the parser's state count: a reset after it would be too late
         if docstring(st) or not mentions_self(st):
             continue
-        if is_reset(st):
-            reset[st.targets[0].attr] = True
+        if reset_attr(st) is not None:
+            reset[reset_attr(st)] = True
+            leading.append(st)
             continue
         # a helper `self._x()` whose whole body is such resets is read through (one level)
         if (isinstance(st, ast.Expr) and isinstance(st.value, ast.Call) and not st.value.args and not st.value.keywords
@@ -35,13 +59,35 @@ def generate(api):
                 and st.value.func.value.id == "self"):
             helper = methods.get(st.value.func.attr)
             body = [x for x in helper.body if not docstring(x)] if helper is not None else None
-            if body and all(is_reset(x) for x in body):
+            if body and all(reset_attr(x) is not None for x in body) and not helper.decorator_list:
                 for x in body:
-                    reset[x.targets[0].attr] = True
+                    reset[reset_attr(x)] = True
+                    leading.append(x)
                 continue
             raise api.P.Untranslatable("%s:%d: parse() starts by calling self.%s(), whose effect on the collected "
                                        "values is not read" % (rel, st.lineno, st.value.func.attr))
         break
+    # "does not reset" is only said when nothing else in the class could be the reset: a dictionary that is not
+    # re-initialised by the leading statements but is rebound / cleared somewhere else (at the start of `_parse`, at
+    # the end of `parse`, in a helper called later ...) is a shape this reader does not follow
+    init = methods.get("__init__")
+    init_nodes = set(id(n) for n in ast.walk(init)) if init is not None else set()
+    lead_nodes = set(id(n) for st in leading for n in ast.walk(st))
+    for n in ast.walk(cls):
+        if id(n) in init_nodes or id(n) in lead_nodes:
+            continue
+        attr = None
+        if (isinstance(n, ast.Attribute) and n.attr in reset and isinstance(n.ctx, (ast.Store, ast.Del))):
+            attr = n.attr
+        elif (isinstance(n, ast.Call) and isinstance(n.func, ast.Attribute) and n.func.attr == "clear"
+              and isinstance(n.func.value, ast.Attribute) and n.func.value.attr in reset):
+            attr = n.func.value.attr
+        elif isinstance(n, ast.Constant) and n.value in reset:
+            attr = n.value  # setattr(self, "_options", ...) / self.__dict__["_options"]
+        if attr is not None and not reset[attr]:
+            raise api.P.Untranslatable("%s:%d: self.%s is not re-initialised by the first statements of parse() but is "
+                                       "reset elsewhere in the class; when that happens is not read"
+                                       % (rel, getattr(n, "lineno", fn.lineno), attr))
     # every other attribute of self assigned anywhere in the class is hidden state the model must know about
     attrs = set()
     for n in ast.walk(cls):
